@@ -5,7 +5,31 @@ use amq_harness::engines;
 use std::io::{BufRead, Write};
 use std::panic::{catch_unwind, AssertUnwindSafe};
 
+/// A logger that is enabled at every level and formats every record (into nothing): whatever the
+/// crate computes inside a log statement is computed here too, as it would be in an application
+/// that runs with RUST_LOG=trace - an expression with a side effect inside `debug!(..)` shows.
+struct EvaluatingLogger;
+
+impl log::Log for EvaluatingLogger {
+    fn enabled(&self, _: &log::Metadata) -> bool {
+        true
+    }
+    fn log(&self, record: &log::Record) {
+        use std::fmt::Write as _;
+        let mut sink = String::new();
+        let _ = write!(sink, "{}", record.args());
+        std::hint::black_box(&sink);
+    }
+    fn flush(&self) {}
+}
+
+static LOGGER: EvaluatingLogger = EvaluatingLogger;
+
 fn main() {
+    if std::env::var("AMQ_NO_LOGGER").is_err() {
+        let _ = log::set_logger(&LOGGER);
+        log::set_max_level(log::LevelFilter::Trace);
+    }
     let args: Vec<String> = std::env::args().collect();
     if args.len() != 2 {
         eprintln!("usage: probe <engine>");
